@@ -272,6 +272,7 @@ fn run_c09(ctx: &mut Ctx) {
             }
         }
     }
+    w_low_part_equal(ctx);
     // lattice across pairs, lengths differing by whole words
     let mut rng = Rng::derive(ctx.seed, 0x090A, 0);
     for ta in 0..NTYPES {
@@ -301,6 +302,68 @@ fn run_c09(ctx: &mut Ctx) {
                             vb2[m - 1] = !vb2[m - 1];
                             judge(ctx, &Case::new("cmp").with("a", a.enc()).with("b", Spec::new(tb, vb2, via_for(tb, &mut rng)).enc()), "W2-word-boundary-lattice");
                         }
+                    }
+                }
+            }
+        }
+    }
+}
+
+/// Pairs that agree on all low storage words and differ only above a word boundary of either
+/// operand's word size: x of type `ta` against its own truncation at every such boundary held in
+/// type `tb`, in both operand orders. (A comparison that stops one word early says "equal".)
+fn w_low_part_equal(ctx: &mut Ctx) {
+    let tier = ctx.tier;
+    let mut rng = Rng::derive(ctx.seed, 0x090B, 0);
+    for ta in 0..NTYPES {
+        for tb in 0..NTYPES {
+            if !ctx.mine() {
+                continue;
+            }
+            let wa = TYPE_WORD_BITS[ta];
+            let wb = TYPE_WORD_BITS[tb];
+            let capa = TYPE_FIXED_CAP[ta].unwrap_or(260);
+            let capb = TYPE_FIXED_CAP[tb].unwrap_or(260);
+            let mut cuts: Vec<usize> = vec![];
+            for w in [wa, wb, 8, 64] {
+                let mut c = w;
+                while c < capa {
+                    cuts.push(c);
+                    c += w;
+                }
+            }
+            cuts.sort();
+            cuts.dedup();
+            for cut in cuts {
+                if cut > capb {
+                    continue;
+                }
+                for rep in 0..tier.pick(1, 3, 10) {
+                    // x: random low part, something non-zero above the cut
+                    let n = match rep {
+                        0 => capa,
+                        1 => (cut + 1).min(capa),
+                        _ => cut + 1 + rng.below(capa - cut),
+                    };
+                    let mut x = gen::random_bits(n, &mut rng);
+                    let hi = cut + rng.below(n - cut);
+                    x[hi] = true;
+                    if rep % 2 == 1 {
+                        for b in x[cut..].iter_mut() {
+                            *b = false;
+                        }
+                        x[hi] = true;
+                    }
+                    let y: Bits = x[..cut].to_vec();
+                    // y at its own length and zero-extended to tb's capacity / x's length
+                    for ylen in [cut, capb.min(n), capb.min(cut + 64)] {
+                        let mut yb = y.clone();
+                        yb.resize(ylen.max(cut), false);
+                        let a = Spec::new(ta, x.clone(), via_for(ta, &mut rng));
+                        let b = Spec::new(tb, yb, via_for(tb, &mut rng));
+                        ctx.bucket("low-words-equal-high-words-differ");
+                        judge(ctx, &Case::new("cmp").with("a", a.enc()).with("b", b.enc()), "W-low-part-equal");
+                        judge(ctx, &Case::new("cmp").with("a", b.enc()).with("b", a.enc()), "W-low-part-equal");
                     }
                 }
             }
@@ -393,5 +456,5 @@ pub fn run(ctx: &mut Ctx) {
     }
 }
 
-pub const REQUIRED_C09: &[&str] = &["equal-value-different-length", "differ-only-in-top-word", "empty-operand", "Ord::cmp", "pools"];
+pub const REQUIRED_C09: &[&str] = &["low-words-equal-high-words-differ", "equal-value-different-length", "differ-only-in-top-word", "empty-operand", "Ord::cmp", "pools"];
 pub const REQUIRED_C10: &[&str] = &["equal-value-different-length", "equal-value-same-length", "Bv-inline-vs-heap", "different-capacity", "negative-control-unequal-pair"];
